@@ -280,6 +280,14 @@ def typestate(ctx):
     for fld in ("state", "pending_request"):
         for w in field_writers(facts, conn.HC, fld):
             ok = all(r.startswith(conn.P) for r in writer_roots(facts, w[0]))
+            if not ok and w[0].startswith(conn.P) and w[3] == "construct" and not _takes_self(facts, w[0]):
+                # another constructor of the impl (called from outside, like new): what it builds must not be RequestReady either
+                fc, lc = leaves(ctx, w[0])
+                ok = bool(lc)
+                for lf in lc:
+                    r = look(lf.ret())
+                    ok = ok and r[0] == "agg" and r[1] == conn.HC and look(r[3][names.index("state")])[0] == "agg" and look(r[3][names.index("state")])[2] != "RequestReady"
+                ctx.ob("R03.4", "constructor|%s|not-RequestReady" % w[0].split("::")[-1], ok, "%s, a constructor called from outside the impl, does not build a connection in RequestReady" % w[0], w[2])
             all_ok = all_ok and ok
             if not ok:
                 ctx.fail("R03.4", "writers|%s|%s" % (fld, w[0]), "HttpConnection.%s is written outside the impl: %s" % (fld, w[0]), w[2])
@@ -491,6 +499,15 @@ def _standalone_methods(facts):
     return out
 
 
+def _takes_self(facts, path):
+    fn = facts.fns[path]
+    if fn.nargs < 1:
+        return False
+    ty = fn.locals[1]["ty"]
+    inner = ty.get("inner", ty) if ty.get("k") == "ref" else ty
+    return inner.get("path") == conn.HC
+
+
 def _takes_mut_self(facts, path):
     fn = facts.fns[path]
     if fn.nargs < 1:
@@ -520,6 +537,8 @@ def panics(ctx, typestate_ok, body_inv_ok=False, scope=None):
         except AnalysisError:
             pass
     pa = PanicAnalysis(facts, tables)
+    if typestate_ok:
+        pa.path_filter = lambda fn, lf: pending_none_under_request_ready(facts, lf)
     nfn = 0
     from .. import paths as _paths
     _paths.LOWERED.clear()
@@ -627,6 +646,38 @@ def assert_macros(ctx):
     ctx.ob("R03.2", "no-assert-macros|scanned", True, "%d assert!/panic! macro sites in non-test code" % n)
 
 
+def pending_none_under_request_ready(facts, lf):
+    """A path that observes state == RequestReady and then finds pending_request (or what take() returned for it) to be
+    None -- with no `&mut self` method call and no other take in between -- contradicts the typestate invariant R03.4.
+    Such a path arises when the taken Option is passed through a combinator before it is unwrapped
+    (`self.pending_request.take().map(..).unwrap()`): the combinator's None arm is enumerated, but cannot be taken."""
+    d = {n: k for k, n in facts.variant_discr("connection::ConnectionState").items()}
+
+    def sf(t, name):        # self.<name>, also in the versioned term language (`argv`)
+        t = look(t)
+        return t[0] == "field" and t[3] == name and look(t[1])[0] in ("arg", "argv") and look(t[1])[1] == 1
+
+    rr = False
+    takes = 0
+    for ev in lf.events:
+        if ev[0] == "cond" and ev[3][0] == "discr" and sf(ev[3][1], "state"):
+            rr = ev[4] == ("eq", d["RequestReady"])
+            takes = 0
+        elif ev[0] == "call" and ev[3] in facts.fns and ev[3].startswith(conn.P) and ev[4][2] and look(ev[4][2][0])[0] in ("arg", "argv") and look(ev[4][2][0])[1] == 1:
+            rr = False
+        elif ev[0] == "call" and last_seg(ev[3]) == "take" and sf(ev[4][2][0], "pending_request"):
+            takes += 1
+        elif ev[0] == "assign" and ev[3] == "(*_1).pending_request" and takes == 0:
+            rr = False      # written before the take: what was observed no longer describes the field
+        elif ev[0] == "cond" and ev[3][0] == "discr" and rr and option_is_some(ev[4]) is False:
+            x = look(ev[3][1])
+            if takes == 0 and sf(x, "pending_request"):
+                return True
+            if takes == 1 and is_call(x, "take") and sf(x[2][0], "pending_request"):
+                return True
+    return False
+
+
 def unwrap_under_request_ready(ctx):
     """Every unwrap of pending_request.take() -- in whichever method (or helper traversed inline) it sits --
     is preceded on its path by the observation state == RequestReady."""
@@ -646,8 +697,8 @@ def unwrap_under_request_ready(ctx):
                         ok = ev[4] == ("eq", d["RequestReady"])
                     elif ev[0] == "call" and ev[3] in ctx.facts.fns and ev[3].startswith(conn.P) and ev[4][2] and look(ev[4][2][0]) == ("arg", 1):
                         ok = False
-                    elif ev[0] == "call" and last_seg(ev[3]) == "take" and self_field(ev[4][2][0], "pending_request") and ev is not lf.events[i - 1]:
-                        ok = False
+                    elif ev[0] == "call" and last_seg(ev[3]) == "take" and self_field(ev[4][2][0], "pending_request") and ev is not lf.events[i - 1] and ev[4] != look(e[4][2][0]):
+                        ok = False      # an earlier take (not the one whose result is unwrapped here) has emptied it
                 if not ok:
                     return False
     return found >= 1
